@@ -430,9 +430,12 @@ func runOversized(sc *scenario) *result {
 		b := make([]byte, 4096)
 		for {
 			if _, err := srv.Read(b); err != nil {
-				return
+				break
 			}
 		}
+		// keep the synchronous pipe flowing after the TLS layer has given up (the client's
+		// alert and its writer must never block on a reader that went away)
+		io.Copy(io.Discard, rawS)
 	}()
 	go func() { // client writer
 		defer all.Done()
@@ -448,8 +451,10 @@ func runOversized(sc *scenario) *result {
 			}
 		}
 	}()
-	go func() { // client reader: meets the oversized handshake message
+	readerDone := make(chan struct{})
+	go func() { // client reader: meets the oversized handshake message and fails
 		defer all.Done()
+		defer close(readerDone)
 		b := make([]byte, 4096)
 		for {
 			if _, err := cli.Read(b); err != nil {
@@ -457,7 +462,7 @@ func runOversized(sc *scenario) *result {
 			}
 		}
 	}()
-	go func() { // server: after a moment, send the oversized header
+	go func() { // server: once its handshake is over and some data has flowed, send the oversized header
 		defer all.Done()
 		if err := srv.Handshake(); err != nil {
 			return
@@ -469,7 +474,13 @@ func runOversized(sc *scenario) *result {
 		}
 		tls.VerifWriteRecord(srv, 22, []byte{typ, 0x01, 0x00, 0x01})
 	}()
-	time.Sleep(time.Duration(sc.LimitMs) * time.Millisecond)
+	// the scenario is over when the client's reader has rejected the message (or after 20 s)
+	select {
+	case <-readerDone:
+		time.Sleep(time.Duration(sc.LimitMs) * time.Millisecond / 10)
+	case <-time.After(20 * time.Second):
+		res.viol, res.desc = "oversized-not-rejected", "the client's Read did not fail within 20 s of an oversized handshake message"
+	}
 	close(stop)
 	rawC.Close()
 	rawS.Close()
@@ -847,12 +858,12 @@ func gen(c *vh.Ctx) {
 	}
 	n := 36
 	if c.Thorough {
-		n = 400
+		n = 3000
 	}
 	if c.Race {
 		n = 30
 		if c.Thorough {
-			n = 300
+			n = 1200
 		}
 	}
 	for i := 0; i < n; i++ {
